@@ -77,6 +77,32 @@ def _notify_tid(c):
     return None
 
 
+def enqueue_is_bounded(ctx, rule):
+    """The request thread hands a queued operation to the worker with a bounded wait: Queue.put(item, block=True, timeout=None)
+    waits for a free slot for ever - with the (small) operations queue full, every further request would hang in the HTTP
+    handler instead of being answered (queue.Full becomes a fault)."""
+    repo = ctx.repo
+    eq = repo.func(f'{SCO}._OperationsWorker.enqueue_operation')
+    puts = [c for c in calls_in(eq.node) if call_name(c) in ('put', 'put_nowait') and 'queue' in unparse(c.func).lower()]
+    if not puts:
+        raise AnalysisError(f'{rule}: enqueue_operation puts nothing on the operations queue')
+    for c in puts:
+        if call_name(c) == 'put_nowait':
+            bounded = True
+        else:
+            bound = dict(zip(('item', 'block', 'timeout'), c.args))
+            bound.update({k.arg: k.value for k in c.keywords if k.arg})
+            blk, to = bound.get('block'), bound.get('timeout')
+            non_blocking = isinstance(blk, ast.Constant) and blk.value in (False, 0)
+            finite = to is not None and not (isinstance(to, ast.Constant) and to.value is None)
+            bounded = non_blocking or finite
+        ctx.ob(rule, f'enqueue_operation: {unparse(c)[:50]} bounded', bounded,
+               'enqueue_operation waits for a free slot of the operations queue for a bounded time only' if bounded else
+               f'enqueue_operation: {unparse(c)} binds no timeout (the second positional parameter of Queue.put is `block`): '
+               f'with the operations queue full the request thread blocks for ever instead of answering with a fault',
+               fi=eq, node=c)
+
+
 def run(ctx):  # noqa: C901, PLR0912, PLR0915
     repo = ctx.repo
     ctx.rule('C09.R1', 'transaction id: single locked writer, one id per request, same id everywhere')
@@ -396,6 +422,12 @@ def run(ctx):  # noqa: C901, PLR0912, PLR0915
     worker_loops_contained(ctx, 'C09.R6', ['sdc11073.consumer.request_handler_deferred.DispatchKeyRegistryDeferred._read_queue',
                                           'sdc11073.provider.sco._OperationsWorker.run'])
     gathers_isolate_subscribers(ctx, 'C09.R4')
+    enqueue_is_bounded(ctx, 'C09.R2')
+    from . import common
+    common.log_templates_are_constant(ctx, 'C09.R4', ['sdc11073.provider.sco', 'sdc11073.provider.operations',
+                                                      'sdc11073.provider.porttypes', 'sdc11073.provider.providerimpl',
+                                                      'sdc11073.consumer.operations', 'sdc11073.consumer.serviceclients',
+                                                      'sdc11073.roles'])
     # ------------------------------------------------------------------ R6
     shared = ('_transactions', '_last_operation_invoked_reports')
     n_acc = 0
